@@ -732,6 +732,19 @@ class Pool(BasePool[C]):
         self._report_snapshot()
         self._capture_snapshot(now=now)
 
+        if self._cur_capacity < self._max_capacity:
+            # The capacity freed by a discarded connection (GC, pruning) is
+            # not handed to anybody: open connections for the blocks whose
+            # requests were queued when the pool was full and that have no
+            # connection coming, or they would wait forever.
+            for block in list(self._blocks.values()):
+                if (
+                    block.count_waiters()
+                    and not block.count_conns()
+                    and self._cur_capacity < self._max_capacity
+                ):
+                    self._schedule_new_conn(block)
+
         # If we're managing connections to only one PostgreSQL DB (Mode A),
         # bail out early. Just give the one and only block we have the max
         # possible quota (which is needed only for logging purposes.)
